@@ -445,10 +445,10 @@ impl KotoVm {
     pub fn run_unary_op(&mut self, op: UnaryOp, value: KValue) -> Result<KValue> {
         // The result register is the first register pushed by the operation; if the operation
         // fails before its registers have been discarded then discard them here.
-        let result_register = self.next_register();
+        let register_count = self.registers.len();
         let result = self.run_unary_op_inner(op, value);
         if result.is_err() {
-            self.truncate_registers(result_register);
+            self.registers.truncate(register_count);
         }
         result
     }
@@ -458,8 +458,10 @@ impl KotoVm {
 
         let old_frame_count = self.call_stack.len();
 
-        let result_register = self.next_register();
-        let value_register = result_register + 1;
+        let result_register = self.new_frame_base()?;
+        let Some(value_register) = result_register.checked_add(1) else {
+            return runtime_error!("Overflow of the current frame's register stack");
+        };
 
         self.registers.push(KValue::Null); // `result_register`
         self.registers.push(value); // `value_register`
@@ -495,10 +497,10 @@ impl KotoVm {
     pub fn run_binary_op(&mut self, op: BinaryOp, lhs: KValue, rhs: KValue) -> Result<KValue> {
         // The result register is the first register pushed by the operation; if the operation
         // fails before its registers have been discarded then discard them here.
-        let result_register = self.next_register();
+        let register_count = self.registers.len();
         let result = self.run_binary_op_inner(op, lhs, rhs);
         if result.is_err() {
-            self.truncate_registers(result_register);
+            self.registers.truncate(register_count);
         }
         result
     }
@@ -506,9 +508,13 @@ impl KotoVm {
     fn run_binary_op_inner(&mut self, op: BinaryOp, lhs: KValue, rhs: KValue) -> Result<KValue> {
         let old_frame_count = self.call_stack.len();
 
-        let result_register = self.next_register();
+        // Operations can be nested, e.g. when comparing containers that contain containers
+        // (without end if a container contains itself), each level takes up registers.
+        let result_register = self.new_frame_base()?;
+        let Some(rhs_register) = result_register.checked_add(2) else {
+            return runtime_error!("Overflow of the current frame's register stack");
+        };
         let lhs_register = result_register + 1;
-        let rhs_register = result_register + 2;
 
         self.registers.push(KValue::Null); // Result register
         self.registers.push(lhs);
